@@ -91,6 +91,39 @@ func (k *kase) oracleStep(ev string) {
 	}
 }
 
+// oracleCounted: which outcomes count a failure.  The harness scripted the outcome of the step,
+// so it knows (without the model) how many failures the step may have counted: none for a
+// success, a client that went away, a failing or panicking response handler or a body that
+// broke off; one per matching unhealthy_status entry for a 500; at least one for a connection
+// closed before the answer (more only through retries); never any when counting is off.
+func (k *kase) oracleCounted(st step, moved *cfgGen) {
+	n := k.lastCounted
+	if moved == nil {
+		return
+	}
+	counting := moved.st.p && moved.st.d > 0
+	what := ""
+	switch {
+	case !counting && n != 0:
+		what = "counting is disabled in this configuration"
+	case st.op == 'A' && n != 0:
+		what = "the client went away (context.Canceled is not the upstream's failure)"
+	case st.op == 'O' && (st.out == "ok" || st.out == "hup" || st.out == "pan" || st.out == "her") && n != 0:
+		what = "the round trip succeeded (outcome " + st.out + ")"
+	case st.op == 'O' && st.out == "e5" && counting && n != moved.st.s:
+		what = fmt.Sprintf("a 500 answer matches %d unhealthy_status entries", moved.st.s)
+	case st.op == 'O' && st.out == "rst" && counting && n < 1:
+		what = "the upstream closed the connection without answering"
+	case st.op == 'O' && st.out == "rst" && counting && n > 1+moved.st.r:
+		what = fmt.Sprintf("at most 1+retries=%d attempts can have failed", 1+moved.st.r)
+	case st.op == 'N' && n > 1+moved.st.r:
+		what = fmt.Sprintf("at most 1+retries=%d attempts can have failed", 1+moved.st.r)
+	}
+	if what != "" {
+		k.fail("wrong-outcome-counted", fmt.Sprintf("step %s counted %d failure(s) but %s", st.text, n, what))
+	}
+}
+
 func (k *kase) oracleEnd() {
 	k.mu.Lock()
 	neg := append([]string(nil), k.negative...)
